@@ -85,6 +85,7 @@ class OsetReport:
             "obligations": self.obligations, "undecided": self.undecided, "errors": self.errors,
             "covers": self.covers, "secs": round(self.secs, 3), "solver_secs": round(self.solver_secs, 3),
             "assumptions": sorted(self.assumptions) + sorted(self.path_assumptions), "trusted": self.trusted,
+            "executed": getattr(self, "executed", []),
         }
 
 
@@ -95,6 +96,7 @@ TIME_BUDGET_S = float(__import__('os').environ.get('PYVC_OSET_BUDGET_S', '240'))
 def run_oset(oset: ObligationSet, loader, max_paths=MAX_PATHS, obl_timeout_ms=None) -> OsetReport:
     rep = OsetReport(oset)
     t0 = time.time()
+    loader.executed = set()
     work = [[]]
     while work:
         prefix = work.pop()
@@ -174,6 +176,8 @@ def run_oset(oset: ObligationSet, loader, max_paths=MAX_PATHS, obl_timeout_ms=No
             rep.samples.append({"path_decisions": len(path.trail), "pc_size": len(path.pc),
                                 "obligations": [o.name for o in path.obligations][:6]})
     rep.secs = time.time() - t0
+    rep.executed = sorted(f for f in loader.executed if f.startswith("pyairtouch"))
+    loader.executed = None
     return rep
 
 
